@@ -70,7 +70,9 @@ def run_case(spec):
             viols.append({"rule": "run_completes", "sig": "guard|%s" % res["guard"], "expected": "a well-formed run completes", "observed": {"error": res["err"], "allocate_call": res.get("failed_alloc")}})
         return ("died", viols, None)
     if res["status"] == "crash":
-        viols.append({"rule": "run_completes", "sig": "crash", "expected": "a well-formed run completes", "observed": res["err"]})
+        st = spec.get("stack") or {}
+        sig = "crash|weigh=%s|mod=%s|%s" % (st.get("weigh"), st.get("mod"), res["err"].split(":")[0])
+        viols.append({"rule": "run_completes", "sig": sig, "expected": "a well-formed run completes", "observed": res["err"]})
         return ("died", viols, None)
     b = res["b"]
     bad = _finite_series(res["hist"])
